@@ -30,21 +30,21 @@ package main
 //@   modifies libWriter, libFailed, libCalls, lastConfig, lastForest, lnNodes, Node.children, Node.parent, Node.brnch.value, Node.brnch.path, list.List.view, list.Element.backOf, counter.n, bufio.Scanner.pos, bufio.Scanner.failed, markdown.Parser.isSharpRoot, markdown.Parser.spaces, markdown.Parser.sep, out, wfail, defaultSpreaderSimple.w, encTrace, encoders, rsRoots, rsFailed, rsStopped, rsErr, gsRoots, gsFailed, gsStopped, gsErr, spRoots, spText, esFailed, errSent
 //@   ensures direct [C16]: libWriter == os.Stdout
 //@   ensures pub [C16]: libCalls == old(libCalls) + 1 && libFailed == (old(libFailed) || result != nil)
-//@   ensures wired [C16]: lastConfig.strictVerify == gtree.specHasOpt(options, gtree.optKStrict, len(options)) && lastConfig.massive == gtree.specHasOpt(options, gtree.optKMassive, len(options)) && lastConfig.targetDir == gtree.specLastOptStr(options, gtree.optKTarget, len(options), ".") && lastConfig.dryrun == gtree.specHasOpt(options, gtree.optKDry, len(options))
+//@   ensures wired [C16]: lastConfig.strictVerify == gtree.specHasOpt(options, gtree.optKStrict, len(options)) && lastConfig.massive == gtree.specHasOpt(options, gtree.optKMassive, len(options)) && lastConfig.targetDir == gtree.specLastOptStr(options, gtree.optKTarget, len(options), ".") && lastConfig.fileExtensions == gtree.specLastOptStrs(options, gtree.optKExt, len(options), nil) && lastConfig.encode == gtree.specLastEncode(options, len(options)) && lastConfig.dryrun == gtree.specHasOpt(options, gtree.optKDry, len(options))
 //@ func main.outputWithValidation
-//@   use lemma gtree.lemmaHasOptPrefix, gtree.lemmaLastOptStrPrefix
+//@   use lemma gtree.lemmaHasOptPrefix, gtree.lemmaLastOptStrPrefix, gtree.lemmaLastOptStrsPrefix, gtree.lemmaLastEncodePrefix
 //@   modifies libWriter, libFailed, libCalls, lastConfig, lastForest, lnNodes, Node.children, Node.parent, Node.brnch.value, Node.brnch.path, list.List.view, list.Element.backOf, counter.n, bufio.Scanner.pos, bufio.Scanner.failed, markdown.Parser.isSharpRoot, markdown.Parser.spaces, markdown.Parser.sep, out, wfail, defaultSpreaderSimple.w, encTrace, encoders, rsRoots, rsFailed, rsStopped, rsErr, gsRoots, gsFailed, gsStopped, gsErr, spRoots, spText, esFailed, errSent
 //@   ensures direct [C16]: libWriter == color.Output
 //@   ensures pub [C16]: libCalls == old(libCalls) + 1 && libFailed == (old(libFailed) || result != nil)
-//@   ensures wired [C16]: lastConfig.strictVerify == gtree.specHasOpt(options, gtree.optKStrict, len(options)) && lastConfig.massive == gtree.specHasOpt(options, gtree.optKMassive, len(options)) && lastConfig.targetDir == gtree.specLastOptStr(options, gtree.optKTarget, len(options), ".") && lastConfig.dryrun
+//@   ensures wired [C16]: lastConfig.strictVerify == gtree.specHasOpt(options, gtree.optKStrict, len(options)) && lastConfig.massive == gtree.specHasOpt(options, gtree.optKMassive, len(options)) && lastConfig.targetDir == gtree.specLastOptStr(options, gtree.optKTarget, len(options), ".") && lastConfig.fileExtensions == gtree.specLastOptStrs(options, gtree.optKExt, len(options), nil) && lastConfig.encode == gtree.specLastEncode(options, len(options)) && lastConfig.dryrun
 //@ func main.mkdir
 //@   modifies libFailed, libCalls, lastConfig, lastForest, lnNodes, Node.children, Node.parent, Node.brnch.value, Node.brnch.path, list.List.view, list.Element.backOf, counter.n, bufio.Scanner.pos, bufio.Scanner.failed, markdown.Parser.isSharpRoot, markdown.Parser.spaces, markdown.Parser.sep, fsOps, fsFailed, defaultGrowerSimple.enabledValidation, errSent
 //@   ensures pub [C16]: libCalls == old(libCalls) + 1 && libFailed == (old(libFailed) || result != nil)
-//@   ensures wired [C16]: lastConfig.strictVerify == gtree.specHasOpt(options, gtree.optKStrict, len(options)) && lastConfig.massive == gtree.specHasOpt(options, gtree.optKMassive, len(options)) && lastConfig.targetDir == gtree.specLastOptStr(options, gtree.optKTarget, len(options), ".") && lastConfig.dryrun == gtree.specHasOpt(options, gtree.optKDry, len(options))
+//@   ensures wired [C16]: lastConfig.strictVerify == gtree.specHasOpt(options, gtree.optKStrict, len(options)) && lastConfig.massive == gtree.specHasOpt(options, gtree.optKMassive, len(options)) && lastConfig.targetDir == gtree.specLastOptStr(options, gtree.optKTarget, len(options), ".") && lastConfig.fileExtensions == gtree.specLastOptStrs(options, gtree.optKExt, len(options), nil) && lastConfig.encode == gtree.specLastEncode(options, len(options)) && lastConfig.dryrun == gtree.specHasOpt(options, gtree.optKDry, len(options))
 //@ func main.verify
 //@   modifies libFailed, libCalls, lastConfig, lastForest, lnNodes, Node.children, Node.parent, Node.brnch.value, Node.brnch.path, list.List.view, list.Element.backOf, counter.n, bufio.Scanner.pos, bufio.Scanner.failed, markdown.Parser.isSharpRoot, markdown.Parser.spaces, markdown.Parser.sep, defaultGrowerSimple.enabledValidation, maps, errSent
 //@   ensures pub [C16]: libCalls == old(libCalls) + 1 && libFailed == (old(libFailed) || result != nil)
-//@   ensures wired [C16]: lastConfig.strictVerify == gtree.specHasOpt(options, gtree.optKStrict, len(options)) && lastConfig.massive == gtree.specHasOpt(options, gtree.optKMassive, len(options)) && lastConfig.targetDir == gtree.specLastOptStr(options, gtree.optKTarget, len(options), ".") && lastConfig.dryrun == gtree.specHasOpt(options, gtree.optKDry, len(options))
+//@   ensures wired [C16]: lastConfig.strictVerify == gtree.specHasOpt(options, gtree.optKStrict, len(options)) && lastConfig.massive == gtree.specHasOpt(options, gtree.optKMassive, len(options)) && lastConfig.targetDir == gtree.specLastOptStr(options, gtree.optKTarget, len(options), ".") && lastConfig.fileExtensions == gtree.specLastOptStrs(options, gtree.optKExt, len(options), nil) && lastConfig.encode == gtree.specLastEncode(options, len(options)) && lastConfig.dryrun == gtree.specHasOpt(options, gtree.optKDry, len(options))
 // outputContinuously (--watch: a ticker loop that only ends on an error) is not under contract
 //@ func main.outputContinuously
 //@   assumed
@@ -53,6 +53,7 @@ package main
 
 //@ func main.optionOutput
 //@   requires nn: c != nil
+//@   ensures kind [C16]: result1 == nil ==> (ctxString(c, "format") == "json" ==> result0 != nil && gtree.optKind(result0) == gtree.optKJSON) && (ctxString(c, "format") == "yaml" ==> result0 != nil && gtree.optKind(result0) == gtree.optKYAML) && (ctxString(c, "format") == "toml" ==> result0 != nil && gtree.optKind(result0) == gtree.optKTOML) && (ctxString(c, "format") == "" ==> result0 == nil)
 //@   ensures known [C16]: result1 == nil ==> ctxString(c, "format") == "json" || ctxString(c, "format") == "yaml" || ctxString(c, "format") == "toml" || ctxString(c, "format") == ""
 //@   ensures unknown [C16]: !(ctxString(c, "format") == "json" || ctxString(c, "format") == "yaml" || ctxString(c, "format") == "toml" || ctxString(c, "format") == "") ==> result1 != nil
 
@@ -69,7 +70,7 @@ package main
 //@   ensures coder [C16]: result != nil ==> isExitCoder(result) && exitCodeOf(result) != 0
 //@   ensures truthful [C16]: result == nil ==> libFailed == old(libFailed)
 //@   ensures dryfs [C16,C09]: ctxBool(c, "dry-run") ==> fsOps == old(fsOps)
-//@   ensures wired [C16]: libCalls == old(libCalls) + 1 ==> lastConfig.targetDir == ctxString(c, "target-dir") && lastConfig.massive == ctxBool(c, "massive") && lastConfig.dryrun == ctxBool(c, "dry-run") && !lastConfig.strictVerify
+//@   ensures wired [C16]: libCalls == old(libCalls) + 1 ==> lastConfig.targetDir == ctxString(c, "target-dir") && lastConfig.massive == ctxBool(c, "massive") && lastConfig.dryrun == ctxBool(c, "dry-run") && !lastConfig.strictVerify && lastConfig.fileExtensions == ctxStrings(c, "extension") && lastConfig.encode == gtree.encodeDefault
 // output and verify never reach the file system
 //@ func main.actionOutput
 //@   requires nn: c != nil
@@ -77,6 +78,7 @@ package main
 //@   ensures coder [C16]: result != nil ==> isExitCoder(result) && exitCodeOf(result) != 0
 //@   ensures truthful [C16]: result == nil ==> libFailed == old(libFailed)
 //@   ensures nofs [C16]: fsOps == old(fsOps)
+//@   ensures wired [C16]: libCalls == old(libCalls) + 1 && !ctxBool(c, "watch") ==> !lastConfig.dryrun && !lastConfig.strictVerify && (ctxString(c, "format") == "json" ==> lastConfig.encode == gtree.encodeJSON) && (ctxString(c, "format") == "yaml" ==> lastConfig.encode == gtree.encodeYAML) && (ctxString(c, "format") == "toml" ==> lastConfig.encode == gtree.encodeTOML) && (ctxString(c, "format") == "" ==> lastConfig.encode == gtree.encodeDefault)
 
 // main: when app.Run reports an error the process must not end with status 0. The normal return of main is
 // exit status 0, so reaching it requires that Run returned nil (os.Exit never returns).
